@@ -179,10 +179,45 @@ class Program:
                       if f.cls is not None and
                       any(self.Line in k.mro for k in repo.leaves_using(f.cls))]
         self.class_const_names = set()
+        # class-level attributes initialised with a mutable container: one
+        # object shared by every instance (and every Gfa) of the process
+        self.class_mutable_names = set()
         for c in repo.classes.values():
-            for n in c.attrs:
+            for n, v in c.attrs.items():
                 if n.isupper() or n.startswith("_default_tag"):
                     self.class_const_names.add(n)
+                if isinstance(v, (ast.List, ast.Dict, ast.Set, ast.ListComp,
+                                  ast.DictComp, ast.SetComp)) or (
+                        isinstance(v, ast.Call) and
+                        (dotted(v.func) or "").split(".")[-1] in (
+                            "list", "dict", "set", "defaultdict",
+                            "OrderedDict", "bytearray", "deque")):
+                    self.class_mutable_names.add(n)
+        # tables that some function of the library edits under their own
+        # name (Construction._apply_definitions and the register_* class
+        # methods complete POSFIELDS, DATATYPE, ... at import) are editable
+        # registries by design; the rest are constants that can only change
+        # through an alias handed to code that writes its argument
+        for m in repo.modules.values():
+            for n in ast.walk(m.tree):
+                tgt = None
+                if isinstance(n, ast.Attribute) and \
+                        isinstance(n.ctx, (ast.Store, ast.Del)):
+                    tgt = n
+                elif isinstance(n, ast.Subscript) and \
+                        isinstance(n.ctx, (ast.Store, ast.Del)) and \
+                        isinstance(n.value, ast.Attribute):
+                    tgt = n.value
+                elif isinstance(n, ast.Call) and \
+                        isinstance(n.func, ast.Attribute) and \
+                        n.func.attr in MUTATORS and \
+                        isinstance(n.func.value, ast.Attribute):
+                    tgt = n.func.value
+                elif isinstance(n, ast.AugAssign) and \
+                        isinstance(n.target, ast.Attribute):
+                    tgt = n.target
+                if tgt is not None:
+                    self.class_mutable_names.discard(tgt.attr)
         self.field_module_funcs = self._field_module_funcs()
         self.summaries = {f: Summary() for f in repo.functions.values()}
         self.memo = {}
@@ -1016,6 +1051,12 @@ class FuncAnalysis:
         plain = True
         if attr == "__class__":
             return EMPTY
+        if attr in self.prog.class_mutable_names and attr not in \
+                self.prog.field_names and not any(
+                    attr in c.methods or attr in c.setters
+                    for c in self.repo.classes.values()):
+            # the shared class-level container itself (process-wide state)
+            return frozenset([("glob", attr, 0, 0, None)])
         if attr in self.prog.class_const_names and attr not in \
                 self.prog.field_names:
             return EMPTY
